@@ -35,6 +35,10 @@ fn selector(s: &Selector) -> m::Selector {
     }
 }
 
+pub fn filter(o: &Or) -> m::Filter {
+    or(o)
+}
+
 fn or(o: &Or) -> m::Filter {
     let ands: Vec<m::Filter> = o.0.iter().map(and).collect();
     if ands.len() == 1 {
